@@ -8,6 +8,7 @@ import Verif.Spec.Index
 import Verif.Model.OpsDriver
 import Verif.Spec.Classify
 import Verif.Model.FlatDriver
+import Verif.Model.UnitsDriver
 import Verif.Generated.Facts
 
 open Lean
@@ -50,6 +51,9 @@ def dispatch (op : String) (inp : J) (impl : Option J) : J :=
               ("shape", .str (reprStr shape)),
               ("expectedComplex", match Spec.Classify.expectedComplex shape with | some b => .bool b | none => .null),
               ("modelCoherent", match m with | .ok f => .bool (Spec.Classify.coherent f) | _ => .null)])])
+  | "uniqify" => UnitsDriver.uniqify facts inp
+  | "removeUnused" => UnitsDriver.removeUnused facts (match impl.bind (·.get? "ok") with | some o => inp.set "implDoc" o | none => inp)
+  | "sort" => UnitsDriver.sort inp
   | "flatten" => FlatDriver.run facts inp
   | "ops" => .obj [("answers", OpsDriver.run facts inp)]
   | "mixin" =>
